@@ -56,9 +56,15 @@ def generate(rng, tier):
         elif mode == "mixed":
             t, _ = gm.flip_some(t, rng, 0.5)
         cases.append({"kind": "tet", "family": "tet_" + fam + "_" + mode, "v": v, "t": t, "unoriented": mode != "oriented"})
+    # very small tetra meshes (1-3 elements, fewer elements than vertices): the dictionary must still report the true counts
+    for nt_ in (1, 2, 3):
+        v = [[0.0, 0.0, 0.0], [1.0, 0.1, 0.0], [0.2, 1.1, 0.1], [0.1, 0.2, 0.9], [1.2, 1.0, 1.1], [-0.8, 0.3, 0.6]]
+        t = [[0, 1, 2, 3], [1, 2, 3, 4], [0, 2, 3, 5]][:nt_]
+        v2, t2 = gm.compact(v, t)
+        cases.append({"kind": "tet", "family": f"tet_tiny{nt_}", "v": v2, "t": gm.orient_tets(v2, t2), "unoriented": False})
     for c in cases:
         n = len(c["v"])
-        c.update({"k": rng.randint(2, min(6, n - 2)), "lump": rng.random() < 0.5, "vdtype": "float64", "tdtype": "int64",
+        c.update({"k": rng.randint(2, max(2, min(6, n - 2))), "lump": rng.random() < 0.5, "vdtype": "float64", "tdtype": "int64",
                   "tseed": rng.randrange(1 << 30), "scale": rng.choice([0.37, 2.5, 40.0]),
                   "other": [rng.uniform(0, 5) for _ in range(6)]})
     return cases
